@@ -1048,6 +1048,13 @@ impl Sched {
         }
     }
 
+    /// blocking acquisitions issued so far by the innermost API call that is running its closure
+    pub fn api_closure_blocking_seq(&self) -> Vec<(Lid, bool)> {
+        let me = my_tid().expect("api_closure_blocking_seq outside simulated thread");
+        let g = self.lock();
+        g.threads[me].api_stack.iter().rev().find(|r| r.in_closure).map(|r| r.blocking_seq.clone()).unwrap_or_default()
+    }
+
     pub fn held(&self) -> Vec<(Lid, bool)> {
         let me = my_tid().expect("held outside simulated thread");
         self.lock().held_by(me)
